@@ -832,6 +832,10 @@ class RecordLayer(object):
         # decrypt
         #
         if self._readState.encContext:
+            if self._readState.encContext.isAEAD:
+                # SSLv2 framing cannot carry AEAD protected records
+                raise TLSIllegalParameterException(
+                    "SSLv2 record received with AEAD cipher active")
             if self._readState.encContext.isBlockCipher:
                 blockLength = self._readState.encContext.block_size
                 if len(data) % blockLength:
